@@ -10,6 +10,7 @@ import (
 	"strings"
 	"time"
 
+	cstypes "github.com/kardiachain/go-kardia/consensus/types"
 	"github.com/kardiachain/go-kardia/lib/common"
 	"github.com/kardiachain/go-kardia/lib/crypto"
 	"github.com/kardiachain/go-kardia/lib/p2p"
@@ -36,6 +37,8 @@ var (
 	nextSig = 1
 	chains  = []string{"", "chain-A", "chain-B"}
 )
+
+const nKeys = 80 // deterministic keys; a validator set takes the first n of a permutation
 
 func chainID(s string) int64 {
 	for i, c := range chains {
@@ -128,6 +131,12 @@ func errClass(err error) string {
 	}
 	s := err.Error()
 	switch {
+	case err == types.ErrVoteNil:
+		return "nil"
+	case err == cstypes.ErrNilVoteType:
+		return "niltype"
+	case err == cstypes.ErrGotVoteFromUnwantedRound:
+		return "unwanted"
 	case strings.Contains(s, "Conflicting votes") || strings.Contains(s, "conflicting vote"):
 		return "conflict"
 	case strings.Contains(s, types.ErrVoteUnexpectedStep.Error()):
@@ -149,6 +158,9 @@ func commitErrClass(err error) string {
 		return "ok"
 	}
 	s := err.Error()
+	if err == types.ErrNilCommit {
+		return "nilcommit"
+	}
 	switch err.(type) {
 	case types.ErrInvalidCommitSignatures:
 		return "size"
@@ -182,10 +194,10 @@ func main() {
 			types.MaxTotalVotingPower, types.MaxVotesCount)
 	})
 	o := out.Open()
-	o.Rule = "a case is one VoteSet history (validator set, votes, peer claims, MakeCommit/VerifyCommit calls); non-trivial = the history reaches a +2/3 majority or contains a conflicting/duplicate/invalid vote; distinct by (validator powers, op-kind string, outcome string)"
+	o.Rule = "a case is one VoteSet history (validator set, votes incl. nil, peer claims, MakeCommit/VerifyCommit/CommitToVoteSet calls, directly assembled commits at the 2/3 boundary) or one HeightVoteSet history (SetRound, AddVote by peers incl. catch-up rounds, SetPeerMaj23, POLInfo after every call); non-trivial = the history reaches a +2/3 majority, contains a conflicting/duplicate/invalid vote, a refused catch-up round or a SetRound panic; distinct by (validator powers, op-kind string, outcome string)"
 	root := gen.New(*out.Seed)
 	// deterministic keys
-	for i := 0; i < 8; i++ {
+	for i := 0; i < nKeys; i++ {
 		k, err := crypto.ToECDSA(crypto.Keccak256([]byte(fmt.Sprintf("verif-c02-key-%d", i))))
 		if err != nil {
 			panic(err)
@@ -197,7 +209,14 @@ func main() {
 		if !out.Want(c) {
 			continue
 		}
-		runCase(o, root.Fork(uint64(c)), c)
+		rr := root.Fork(uint64(c))
+		if rr.Pick(7, 2) == 1 {
+			o.Count("case.heightvoteset")
+			runHVSCase(o, rr, c)
+		} else {
+			o.Count("case.voteset")
+			runCase(o, rr, c)
+		}
 	}
 	o.Close()
 }
@@ -206,11 +225,18 @@ func mkBid(h, total, ph int) types.BlockID {
 	return types.BlockID{Hash: common.BigToHash(big.NewInt(int64(h))), PartsHeader: types.PartSetHeader{Total: uint32(total), Hash: common.BigToHash(big.NewInt(int64(ph)))}}
 }
 
-func runCase(o *out.Out, r *gen.Rand, c int) {
+// genValSet: validator sets of 1..7 members (rarely 63..66: the bit arrays cross a 64-bit word),
+// powers from {1, equal, small with the total forced to each residue mod 3, skewed, near the cap,
+// exactly the cap}.
+func genValSet(o *out.Out, r *gen.Rand) (*types.ValidatorSet, []int64, func(int) int, *big.Int) {
 	n := 1 + r.Intn(7)
+	if r.Chance(1, 60) {
+		n = 63 + r.Intn(4)
+		o.Count("nvals.big")
+	}
 	// power distribution
 	powers := make([]int64, n)
-	kind := r.Pick(3, 3, 3, 2, 2)
+	kind := r.Pick(3, 3, 3, 2, 2, 1, 2)
 	capTotal := types.MaxTotalVotingPower
 	switch kind {
 	case 0: // all 1
@@ -244,10 +270,30 @@ func runCase(o *out.Out, r *gen.Rand, c int) {
 		for i := range powers {
 			powers[i] = each - int64(r.Intn(3))
 		}
+	case 5: // exactly the cap (MaxTotalVotingPower = MaxInt64/8)
+		each := capTotal / int64(n)
+		var t int64
+		for i := range powers {
+			powers[i] = each
+			t += each
+		}
+		powers[r.Intn(n)] += capTotal - t
+	case 6: // small powers, total forced to a chosen residue mod 3 (2T/3 exact, or rounded down)
+		var t int64
+		for i := range powers {
+			powers[i] = int64(1 + r.Intn(4))
+			t += powers[i]
+		}
+		want := int64(r.Intn(3))
+		for t%3 != want {
+			powers[n-1]++
+			t++
+		}
+		o.Count(fmt.Sprintf("powers.mod3.%d", want))
 	}
 	o.Count(fmt.Sprintf("powers.kind%d", kind))
 	o.Count(fmt.Sprintf("nvals.%d", n))
-	perm := r.Perm(8)
+	perm := r.Perm(nKeys)
 	vals := make([]*types.Validator, n)
 	for i := 0; i < n; i++ {
 		vals[i] = types.NewValidator(crypto.PubkeyToAddress(keys[perm[i]].PublicKey), powers[i])
@@ -260,6 +306,188 @@ func runCase(o *out.Out, r *gen.Rand, c int) {
 	for _, v := range vset.Validators {
 		total.Add(total, big.NewInt(v.VotingPower))
 	}
+	return vset, powers, keyOf, total
+}
+
+// block-id pool: nil, A, B, A' (A with another total), A'' (A with another parts hash), malformed (hash only),
+// malformed (parts header only: neither zero nor complete)
+var pool = []types.BlockID{{}, mkBid(7, 1, 9), mkBid(8, 2, 10), mkBid(7, 2, 9), mkBid(7, 1, 11), mkBid(5, 0, 0), mkBid(0, 1, 9)}
+
+// caseHeader writes the case header, the validators and the tracked block ids for the model driver.
+func caseHeader(o *out.Out, c int, chain string, height uint64, round uint32, ty int, vset *types.ValidatorSet) {
+	o.Case(c, fmt.Sprintf("CASE %d %d %d %d %d %d", c, chainID(chain), height, round, ty, vset.Size()))
+	for _, v := range vset.Validators {
+		o.InOnly(fmt.Sprintf("VAL %d %d", addrID[v.Address], v.VotingPower))
+	}
+	for _, b := range pool {
+		o.InOnly("B " + bidStr(b))
+	}
+}
+
+// vsObs: every public observable of a vote set: majority, any/all flags, bit array, the canonical vote
+// of every index (GetByIndex, as signature identity), the per-block bit arrays of the pool, IsCommit.
+func vsObs(vs *types.VoteSet, n int) string {
+	maj, ok := vs.TwoThirdsMajority()
+	ms := "-"
+	if ok {
+		ms = bidObs(maj)
+	}
+	ba := vs.BitArray()
+	bits := ""
+	ids := make([]string, n)
+	for i := 0; i < n; i++ {
+		if ba.GetIndex(i) {
+			bits += "1"
+		} else {
+			bits += "0"
+		}
+		ids[i] = "0"
+		if v := vs.GetByIndex(uint32(i)); v != nil {
+			ids[i] = fmt.Sprint(sigIDorZero(v.Signature))
+		}
+	}
+	bb := make([]string, len(pool))
+	for k, pb := range pool {
+		bb[k] = "nil"
+		if a := vs.BitArrayByBlockID(pb); a != nil {
+			bb[k] = ""
+			for i := 0; i < n; i++ {
+				if a.GetIndex(i) {
+					bb[k] += "1"
+				} else {
+					bb[k] += "0"
+				}
+			}
+		}
+	}
+	return fmt.Sprintf("%s %s %s %s ids=%s bb=%s ic=%s", ms, b01(vs.HasTwoThirdsAny()), b01(vs.HasAll()), bits,
+		strings.Join(ids, ","), strings.Join(bb, "/"), b01(vs.IsCommit()))
+}
+
+// accessorOracle: accessors that must agree with each other on every state.
+func accessorOracle(o *out.Out, step int, vs *types.VoteSet, vset *types.ValidatorSet, ty kproto.SignedMsgType) {
+	_, ok := vs.TwoThirdsMajority()
+	if vs.HasTwoThirdsMajority() != ok {
+		o.Fail(step, "accessor-disagree", "HasTwoThirdsMajority differs from TwoThirdsMajority")
+	}
+	if vs.IsCommit() != (ok && ty == kproto.PrecommitType) {
+		o.Fail(step, "accessor-disagree", "IsCommit differs from (precommit set with a majority)")
+	}
+	ba := vs.BitArray()
+	for i, val := range vset.Validators {
+		v := vs.GetByIndex(uint32(i))
+		if (v != nil) != ba.GetIndex(i) {
+			o.Fail(step, "accessor-disagree", fmt.Sprintf("BitArray bit %d differs from GetByIndex != nil", i))
+		}
+		if vs.GetByAddress(val.Address) != v {
+			o.Fail(step, "accessor-disagree", fmt.Sprintf("GetByAddress differs from GetByIndex at %d", i))
+		}
+		if v != nil && (int(v.ValidatorIndex) != i || !v.ValidatorAddress.Equal(val.Address)) {
+			o.Fail(step, "accessor-disagree", fmt.Sprintf("the vote stored at %d carries index %d", i, v.ValidatorIndex))
+		}
+	}
+}
+
+// vsTrack: what the direct oracles know about one vote set: the valid votes offered so far (by
+// construction: right step, index, address and a signature by that validator's key over exactly the vote),
+// each validator's first valid vote, and the majority reported so far.
+type vsTrack struct {
+	vset       *types.ValidatorSet
+	total      *big.Int
+	ty         kproto.SignedMsgType
+	offered    []tvote
+	firstValid map[int]*types.BlockID
+	hadMaj     bool
+	lastMaj    types.BlockID
+}
+
+func newTrack(vset *types.ValidatorSet, total *big.Int, ty kproto.SignedMsgType) *vsTrack {
+	return &vsTrack{vset: vset, total: total, ty: ty, firstValid: map[int]*types.BlockID{}}
+}
+
+func (t *vsTrack) offer(idx int, b types.BlockID) {
+	t.offered = append(t.offered, tvote{idx: idx, bid: b, valid: true})
+	if _, seen := t.firstValid[idx]; !seen {
+		bb := b
+		t.firstValid[idx] = &bb
+	}
+}
+
+func (t *vsTrack) powerOf(set map[int]bool) *big.Int {
+	s := new(big.Int)
+	for i := range set {
+		s.Add(s, big.NewInt(t.vset.Validators[i].VotingPower))
+	}
+	return s
+}
+
+func (t *vsTrack) gt23(p *big.Int) bool {
+	return new(big.Int).Mul(p, big.NewInt(3)).Cmp(new(big.Int).Mul(t.total, big.NewInt(2))) > 0
+}
+
+// validFor: the validators that offered a valid vote for exactly b (every one counted once)
+func (t *vsTrack) validFor(b types.BlockID) map[int]bool {
+	set := map[int]bool{}
+	for _, tv := range t.offered {
+		if tv.valid && tv.bid.Equal(b) {
+			set[tv.idx] = true
+		}
+	}
+	return set
+}
+
+// check: the property evaluated directly on the implementation's vote set (independent big.Int tally).
+func (t *vsTrack) check(o *out.Out, step int, vs *types.VoteSet) {
+	total := t.total
+	maj, ok := vs.TwoThirdsMajority()
+	if ok {
+		set := t.validFor(maj)
+		if !t.gt23(t.powerOf(set)) {
+			o.Fail(step, "maj23-unsound", fmt.Sprintf("maj23=%s but valid distinct signers of that exact id hold %s of %s", bidObs(maj), t.powerOf(set), total))
+		}
+	}
+	// the first majority is final: it is never withdrawn and never replaced
+	if t.hadMaj && (!ok || !maj.Equal(t.lastMaj)) {
+		o.Fail(step, "maj23-changed", fmt.Sprintf("the reported majority changed from %s", bidObs(t.lastMaj)))
+	}
+	if ok {
+		t.hadMaj, t.lastMaj = true, maj
+	}
+	all := map[int]bool{}
+	for _, tv := range t.offered {
+		if tv.valid {
+			all[tv.idx] = true
+		}
+	}
+	if vs.HasTwoThirdsAny() && !t.gt23(t.powerOf(all)) {
+		o.Fail(step, "any23-unsound", fmt.Sprintf("HasTwoThirdsAny but valid signers hold %s of %s", t.powerOf(all), total))
+	}
+	if !vs.HasTwoThirdsAny() && t.gt23(t.powerOf(all)) {
+		o.Fail(step, "any23-incomplete", fmt.Sprintf("valid signers hold %s of %s but HasTwoThirdsAny is false", t.powerOf(all), total))
+	}
+	if vs.HasAll() != (t.powerOf(all).Cmp(total) == 0) {
+		o.Fail(step, "hasall-unsound", fmt.Sprintf("HasAll=%v but the validators that offered a valid vote hold %s of %s", vs.HasAll(), t.powerOf(all), total))
+	}
+	// completeness: first valid votes
+	byb := map[string]map[int]bool{}
+	for i, b := range t.firstValid {
+		k := bidObs(*b)
+		if byb[k] == nil {
+			byb[k] = map[int]bool{}
+		}
+		byb[k][i] = true
+	}
+	for k, set := range byb {
+		if t.gt23(t.powerOf(set)) && !ok {
+			o.Fail(step, "maj23-incomplete", fmt.Sprintf("validators with +2/3 power gave first valid vote for %s but no majority reported", k))
+		}
+	}
+	accessorOracle(o, step, vs, t.vset, t.ty)
+}
+
+func runCase(o *out.Out, r *gen.Rand, c int) {
+	vset, powers, keyOf, total := genValSet(o, r)
+	n := vset.Size()
 	chain := chains[1]
 	height := uint64(1 + r.Intn(5))
 	round := uint32(1 + r.Intn(3))
@@ -268,276 +496,81 @@ func runCase(o *out.Out, r *gen.Rand, c int) {
 		ty = kproto.PrecommitType
 	}
 	vs := types.NewVoteSet(chain, height, round, ty, vset)
-	hdr := fmt.Sprintf("CASE %d %d %d %d %d %d", c, chainID(chain), height, round, int(ty), n)
-	o.Case(c, hdr)
-	for _, v := range vset.Validators {
-		o.InOnly(fmt.Sprintf("VAL %d %d", addrID[v.Address], v.VotingPower))
-	}
+	caseHeader(o, c, chain, height, round, int(ty), vset)
 
-	// block-id pool: nil, A, B, A' (A with another total), A'' (A with another parts hash), malformed (hash only)
-	pool := []types.BlockID{{}, mkBid(7, 1, 9), mkBid(8, 2, 10), mkBid(7, 2, 9), mkBid(7, 1, 11), mkBid(5, 0, 0)}
-	times := []time.Time{time.Unix(1600000000, 0).UTC(), time.Unix(1600000001, 500).UTC()}
-
-	offered := []tvote{}
-	firstValid := map[int]*types.BlockID{}
+	tr := newTrack(vset, total, ty)
 	opKinds := ""
 	outcome := ""
 	step := 0
-
-	powerOf := func(set map[int]bool) *big.Int {
-		s := new(big.Int)
-		for i := range set {
-			s.Add(s, big.NewInt(vset.Validators[i].VotingPower))
-		}
-		return s
-	}
-	gt23 := func(p *big.Int) bool {
-		return new(big.Int).Mul(p, big.NewInt(3)).Cmp(new(big.Int).Mul(total, big.NewInt(2))) > 0
-	}
-	checkOracle := func() {
-		maj, ok := vs.TwoThirdsMajority()
-		if ok {
-			set := map[int]bool{}
-			for _, tv := range offered {
-				if tv.valid && tv.bid.Equal(maj) {
-					set[tv.idx] = true
-				}
-			}
-			if !gt23(powerOf(set)) {
-				o.Fail(step, "maj23-unsound", fmt.Sprintf("maj23=%s but valid distinct signers of that exact id hold %s of %s", bidObs(maj), powerOf(set), total))
-			}
-		}
-		if vs.HasTwoThirdsAny() {
-			set := map[int]bool{}
-			for _, tv := range offered {
-				if tv.valid {
-					set[tv.idx] = true
-				}
-			}
-			if !gt23(powerOf(set)) {
-				o.Fail(step, "any23-unsound", fmt.Sprintf("HasTwoThirdsAny but valid signers hold %s of %s", powerOf(set), total))
-			}
-		}
-		if vs.HasAll() {
-			set := map[int]bool{}
-			for _, tv := range offered {
-				if tv.valid {
-					set[tv.idx] = true
-				}
-			}
-			if powerOf(set).Cmp(total) != 0 {
-				o.Fail(step, "hasall-unsound", "HasAll but not all validators offered a valid vote")
-			}
-		}
-		// completeness: first valid votes
-		byb := map[string]map[int]bool{}
-		for i, b := range firstValid {
-			k := bidObs(*b)
-			if byb[k] == nil {
-				byb[k] = map[int]bool{}
-			}
-			byb[k][i] = true
-		}
-		for k, set := range byb {
-			if gt23(powerOf(set)) && !ok {
-				o.Fail(step, "maj23-incomplete", fmt.Sprintf("validators with +2/3 power gave first valid vote for %s but no majority reported", k))
-			}
-		}
-	}
-
-	// observable state of the vote set (majority, any/all flags, bit array, per-block bit arrays of the pool)
-	stateObs := func() string {
-		maj, ok := vs.TwoThirdsMajority()
-		ms := "-"
-		if ok {
-			ms = bidObs(maj)
-		}
-		st := fmt.Sprintf("%s %s %s %s", ms, b01(vs.HasTwoThirdsAny()), b01(vs.HasAll()), vs.BitArray().String())
-		for _, pb := range pool {
-			if ba := vs.BitArrayByBlockID(pb); ba != nil {
-				st += " " + ba.String()
-			} else {
-				st += " nil"
-			}
-		}
-		return st
-	}
+	checkOracle := func() { tr.check(o, step, vs) }
 
 	nops := 3 + r.Intn(4*n+6)
+	if n > 60 {
+		nops = n + r.Intn(n)
+	}
 	// bias: a "main" block most validators vote for
 	mainB := 1 + r.Intn(2)
 	for k := 0; k < nops; k++ {
 		step = k
-		pk := r.Pick(16, 2, 1, 1)
+		pk := r.Pick(32, 4, 2, 2, 3, 1, 1)
 		if _, has := vs.TwoThirdsMajority(); has && ty == kproto.PrecommitType && r.Chance(1, 3) {
-			pk = 2
+			pk = 2 + r.Pick(3, 1)*4
 		}
 		switch pk {
 		case 0: // vote
-			idx := r.Intn(n)
-			b := pool[mainB]
-			switch r.Pick(10, 3, 2, 2, 2, 1) {
-			case 1:
-				b = pool[0]
-			case 2:
-				b = pool[3]
-			case 3:
-				b = pool[3-mainB]
-			case 4:
-				b = pool[4]
-			case 5:
-				b = pool[5]
-			}
-			v := &types.Vote{ValidatorAddress: vset.Validators[idx].Address, ValidatorIndex: uint32(idx), Height: height, Round: round,
-				Timestamp: times[r.Pick(5, 1)], Type: ty, BlockID: b}
-			valid := true
-			mut := r.Pick(24, 1, 1, 1, 1, 1, 1, 1, 1, 1, 1, 1, 1)
+			v, valid, idx, mut := genVote(r, vset, keyOf, chain, height, round, ty, mainB)
 			o.Count(fmt.Sprintf("vote.mut%d", mut))
-			signed := false
-			switch mut {
-			case 1: // wrong height
-				v.Height = height + 1
-				valid = false
-			case 2: // wrong round
-				v.Round = round + 1
-				valid = false
-			case 3: // wrong type
-				if ty == kproto.PrevoteType {
-					v.Type = kproto.PrecommitType
-				} else {
-					v.Type = kproto.PrevoteType
-				}
-				valid = false
-			case 4: // index out of range
-				v.ValidatorIndex = uint32(n + r.Intn(3))
-				valid = false
-			case 5: // index of another validator, own address
-				if n > 1 {
-					v.ValidatorIndex = uint32((idx + 1) % n)
-					valid = false
-				}
-			case 6: // zero address
-				v.ValidatorAddress = common.Address{}
-				valid = false
-			case 7: // signed by a different key
-				v.Signature = signVote((keyOf(idx)+1)%8, chain, v)
-				signed, valid = true, false
-			case 8: // signed for another chain
-				v.Signature = signVote(keyOf(idx), chains[2], v)
-				signed, valid = true, false
-			case 9: // signature over a different round / type / block id / time
-				w := *v
-				switch r.Intn(4) {
-				case 0:
-					w.Round = round + 1
-				case 1:
-					if ty == kproto.PrevoteType {
-						w.Type = kproto.PrecommitType
-					} else {
-						w.Type = kproto.PrevoteType
-					}
-				case 2:
-					w.BlockID = pool[(1+r.Intn(4))]
-					if w.BlockID.Equal(v.BlockID) {
-						w.BlockID = pool[0]
-					}
-				case 3:
-					w.Timestamp = time.Unix(1700000000, 0).UTC()
-				}
-				v.Signature = signVote(keyOf(idx), chain, &w)
-				signed, valid = true, false
-			case 10: // garbage 65 bytes
-				v.Signature = garbageSig(r, 65)
-				signed, valid = true, false
-			case 11: // short / long / empty
-				v.Signature = garbageSig(r, []int{0, 1, 10, 64, 66}[r.Intn(5)])
-				signed, valid = true, false
-			case 12: // address of another validator with matching index of that one => actually a valid vote by that validator if signed by it; here signed by idx's key
-				if n > 1 {
-					j := (idx + 1) % n
-					v.ValidatorAddress = vset.Validators[j].Address
-					v.ValidatorIndex = uint32(j)
-					v.Signature = signVote(keyOf(idx), chain, v)
-					signed, valid = true, false
-				}
+			if r.Chance(1, 6) {
+				statelessVoteOps(o, r, vset, chain, v, step)
 			}
-			if !signed {
-				kidx := idx
-				if int(v.ValidatorIndex) < n && mut == 5 {
-					kidx = idx
-				}
-				v.Signature = signVote(keyOf(kidx), chain, v)
-			}
-			in := fmt.Sprintf("V %d %d %d %d %d %d %s %s", v.ValidatorIndex, addrID[v.ValidatorAddress], v.Height, v.Round, int(v.Type), tmID(v.Timestamp), bidStr(v.BlockID), sigTokens(v.Signature))
+			in := "V " + voteTokens(v)
 			var added bool
 			var err error
-			before := stateObs()
+			before := vsObs(vs, n)
 			pan := catch(func() { added, err = vs.AddVote(v) })
 			if valid {
-				offered = append(offered, tvote{idx: idx, bid: v.BlockID, valid: true})
-				if _, seen := firstValid[idx]; !seen {
-					bb := v.BlockID
-					firstValid[idx] = &bb
-				}
+				tr.offer(idx, v.BlockID)
 			}
 			var obs string
 			if pan {
 				obs = "v PANIC"
 				o.Fail(step, "addvote-panic", "AddVote panicked")
 			} else {
-				maj, ok := vs.TwoThirdsMajority()
-				ms := "-"
-				if ok {
-					ms = bidObs(maj)
-				}
-				ba := vs.BitArray()
-				bits := ""
-				for i := 0; i < n; i++ {
-					if ba.GetIndex(i) {
-						bits += "1"
-					} else {
-						bits += "0"
-					}
-				}
-				obs = fmt.Sprintf("v %s %s %s %s %s %s", b01(added), errClass(err), ms, b01(vs.HasTwoThirdsAny()), b01(vs.HasAll()), bits)
 				ec := errClass(err)
+				obs = fmt.Sprintf("v %s %s %s", b01(added), ec, vsObs(vs, n))
 				outcome += ec[:1]
-				if ok {
+				if _, ok := vs.TwoThirdsMajority(); ok {
 					outcome += "M"
 				}
-				if valid && err != nil && ec != "conflict" && ec != "nondet" {
-					o.Fail(step, "valid-vote-rejected", "a valid vote was rejected with "+ec)
-				}
-				if !valid && added {
-					o.Fail(step, "invalid-vote-added", "an invalid vote was added")
-				}
-				// C02_rejected_unchanged: a vote rejected with anything but a conflict, and a duplicate,
-				// must leave every observable of the vote set as it was
-				if (ec != "none" && ec != "conflict") || (ec == "none" && !added) {
-					if added {
-						o.Fail(step, "rejected-but-added", "AddVote returned added=true together with error class "+ec)
-					}
-					if after := stateObs(); after != before {
-						o.Fail(step, "rejected-changed-state", fmt.Sprintf("vote rejected with %s changed the vote set: %s -> %s", ec, before, after))
-					}
-				}
+				voteOracle(o, step, valid, added, ec, before, vsObs(vs, n))
 			}
 			opKinds += "v"
 			o.Op(in, obs)
 			checkOracle()
+		case 5: // AddVote(nil): ErrVoteNil, nothing changes
+			var added bool
+			var err error
+			before := vsObs(vs, n)
+			pan := catch(func() { added, err = vs.AddVote(nil) })
+			obs := "v PANIC"
+			if pan {
+				o.Fail(step, "addvote-panic", "AddVote(nil) panicked")
+			} else {
+				obs = fmt.Sprintf("v %s %s %s", b01(added), errClass(err), vsObs(vs, n))
+				voteOracle(o, step, false, added, errClass(err), before, vsObs(vs, n))
+			}
+			opKinds += "n"
+			o.Count("op.nilvote")
+			o.Op("VN", obs)
+			checkOracle()
 		case 1: // peer maj23 claim
 			peer := 1 + r.Intn(3)
-			b := pool[r.Intn(5)]
+			b := pool[r.Intn(7)]
 			var err error
 			pan := catch(func() { err = vs.SetPeerMaj23(p2p.ID(fmt.Sprintf("peer%d", peer)), b) })
 			obs := "p PANIC"
 			if !pan {
-				maj, ok := vs.TwoThirdsMajority()
-				ms := "-"
-				if ok {
-					ms = bidObs(maj)
-				}
-				obs = fmt.Sprintf("p %s %s", b01(err != nil), ms)
+				obs = fmt.Sprintf("p %s %s", b01(err != nil), vsObs(vs, n))
 			}
 			opKinds += "p"
 			o.Count("op.peer")
@@ -562,11 +595,213 @@ func runCase(o *out.Out, r *gen.Rand, c int) {
 				mc, want, h := mutateCommit(r, cm, maj, height, pool, n, vset, keyOf, chain)
 				doVerify(o, r, vset, chain, want, h, mc, total, step, false)
 			}
+		case 6: // CommitToVoteSet(MakeCommit()) is the inverse of MakeCommit; also on a mutated commit
+			var cm *types.Commit
+			pan := catch(func() { cm = vs.MakeCommit() })
+			opKinds += "t"
+			if pan || cm == nil {
+				o.Op("M", "m -")
+				continue
+			}
+			o.Op("M", "m "+commitObs(cm))
+			maj, _ := vs.TwoThirdsMajority()
+			doToVoteSet(o, vset, chain, cm, step, maj.IsComplete() && allWireValid(vs, n))
+			if r.Chance(1, 2) {
+				mc, _, _ := mutateCommit(r, cm, maj, height, pool, n, vset, keyOf, chain)
+				doToVoteSet(o, vset, chain, mc, step, false)
+			}
+		case 4: // a commit assembled directly from signatures (not through a vote set)
+			opKinds += "d"
+			mc, want, h := directCommit(o, r, vset, keyOf, chain, height, round, total)
+			doVerify(o, r, vset, chain, want, h, mc, total, step, false)
+			if r.Chance(1, 4) {
+				doToVoteSet(o, vset, chain, mc, step, false)
+			}
+			if r.Chance(1, 8) {
+				doVerifyNil(o, vset, chain, want, h, step)
+			}
 		}
 	}
 	if strings.Contains(outcome, "M") || strings.ContainsAny(outcome, "csnia") {
 		o.Mark(fmt.Sprintf("%v|%s|%s", powers, opKinds, outcome))
 	}
+}
+
+// voteOracle: what must hold of one AddVote call whatever the history.
+func voteOracle(o *out.Out, step int, valid, added bool, ec, before, after string) {
+	if valid && ec != "none" && ec != "conflict" && ec != "nondet" {
+		o.Fail(step, "valid-vote-rejected", "a valid vote was rejected with "+ec)
+	}
+	if !valid && added {
+		o.Fail(step, "invalid-vote-added", "an invalid vote was added")
+	}
+	// C02_rejected_unchanged: a vote rejected with anything but a conflict, and a duplicate,
+	// must leave every observable of the vote set as it was
+	if (ec != "none" && ec != "conflict") || (ec == "none" && !added) {
+		if added {
+			o.Fail(step, "rejected-but-added", "AddVote returned added=true together with error class "+ec)
+		}
+		if after != before {
+			o.Fail(step, "rejected-changed-state", fmt.Sprintf("vote rejected with %s changed the vote set: %s -> %s", ec, before, after))
+		}
+	}
+}
+
+func voteTokens(v *types.Vote) string {
+	return fmt.Sprintf("%d %d %d %d %d %d %s %s", v.ValidatorIndex, addrID[v.ValidatorAddress], v.Height, v.Round, int(v.Type), tmID(v.Timestamp), bidStr(v.BlockID), sigTokens(v.Signature))
+}
+
+var voteTimes = []time.Time{time.Unix(1600000000, 0).UTC(), time.Unix(1600000001, 500).UTC()}
+
+func otherType(ty kproto.SignedMsgType) kproto.SignedMsgType {
+	if ty == kproto.PrevoteType {
+		return kproto.PrecommitType
+	}
+	return kproto.PrevoteType
+}
+
+// genVote: a vote of validator idx for the step (height, round, ty), mostly valid (block id biased to the
+// "main" block of the case), else one of the malformed kinds.  valid = right step, index, address and a
+// signature by that validator's key over exactly the vote.
+func genVote(r *gen.Rand, vset *types.ValidatorSet, keyOf func(int) int, chain string, height uint64, round uint32, ty kproto.SignedMsgType, mainB int) (*types.Vote, bool, int, int) {
+	v, valid, _, idx, mut := genVoteR(r, vset, keyOf, chain, height, round, ty, mainB)
+	return v, valid, idx, mut
+}
+
+// genVoteR also returns routed: the vote is a valid vote of the vote set of ITS OWN (round, type) at this
+// height (a HeightVoteSet routes by these two fields): only the round or the type were changed, before signing.
+func genVoteR(r *gen.Rand, vset *types.ValidatorSet, keyOf func(int) int, chain string, height uint64, round uint32, ty kproto.SignedMsgType, mainB int) (*types.Vote, bool, bool, int, int) {
+	n := vset.Size()
+	idx := r.Intn(n)
+	b := pool[mainB]
+	switch r.Pick(20, 6, 4, 4, 4, 1, 1) {
+	case 1:
+		b = pool[0]
+	case 2:
+		b = pool[3]
+	case 3:
+		b = pool[3-mainB]
+	case 4:
+		b = pool[4]
+	case 5:
+		b = pool[5]
+	case 6:
+		b = pool[6]
+	}
+	v := &types.Vote{ValidatorAddress: vset.Validators[idx].Address, ValidatorIndex: uint32(idx), Height: height, Round: round,
+		Timestamp: voteTimes[r.Pick(5, 1)], Type: ty, BlockID: b}
+	valid := true
+	routed := true
+	mut := r.Pick(24, 1, 1, 1, 1, 1, 1, 1, 1, 1, 1, 1, 1)
+	signed := false
+	// two faults at once pin the ORDER of the checks of addVote (empty address, step, index, address of
+	// that index, known vote, signature): a stateless field fault first, then the fault chosen above
+	if mut != 0 && r.Chance(1, 5) {
+		switch r.Intn(5) {
+		case 0:
+			v.Height = height + 2
+			valid, routed = false, false
+		case 1:
+			v.Round = round + 2
+			valid = false
+		case 2:
+			v.ValidatorIndex = uint32(n + 1)
+			valid, routed = false, false
+		case 3:
+			v.ValidatorAddress = common.Address{}
+			valid, routed = false, false
+		case 4:
+			if n > 1 {
+				v.ValidatorAddress = vset.Validators[(idx+1)%n].Address
+				valid, routed = false, false
+			}
+		}
+	}
+	switch mut {
+	case 1: // wrong height
+		v.Height = height + 1
+		if r.Chance(1, 3) {
+			v.Height = height - 1 // includes height 0
+		}
+		valid, routed = false, false
+	case 2: // wrong round
+		v.Round = round + 1
+		if r.Chance(1, 3) && round > 0 {
+			v.Round = round - 1
+		}
+		valid = false
+	case 3: // wrong type
+		v.Type = otherType(ty)
+		valid = false
+	case 4: // index out of range: first index past the end, a bit further, MaxUint32
+		v.ValidatorIndex = uint32(n + r.Intn(3))
+		if r.Chance(1, 4) {
+			v.ValidatorIndex = uint32(n + 1000)
+		}
+		valid, routed = false, false
+	case 5: // index of another validator, own address
+		if n > 1 {
+			v.ValidatorIndex = uint32((idx + 1) % n)
+			valid, routed = false, false
+		}
+	case 6: // zero address
+		v.ValidatorAddress = common.Address{}
+		valid, routed = false, false
+	case 7: // signed by a different key
+		v.Signature = signVote((keyOf(idx)+1)%nKeys, chain, v)
+		signed, valid, routed = true, false, false
+	case 8: // signed for another chain
+		v.Signature = signVote(keyOf(idx), chains[2], v)
+		signed, valid, routed = true, false, false
+	case 9: // signature over a different height / round / type / block id / time
+		w := *v
+		switch r.Intn(5) {
+		case 0:
+			w.Round = round + 1
+		case 1:
+			w.Type = otherType(ty)
+		case 2:
+			w.BlockID = pool[(1 + r.Intn(4))]
+			if w.BlockID.Equal(v.BlockID) {
+				w.BlockID = pool[0]
+			}
+		case 3:
+			w.Timestamp = time.Unix(1700000000, 0).UTC()
+		case 4:
+			w.Height = height + 1
+		}
+		v.Signature = signVote(keyOf(idx), chain, &w)
+		signed, valid, routed = true, false, false
+	case 10: // garbage 65 bytes
+		v.Signature = garbageSig(r, 65)
+		signed, valid, routed = true, false, false
+	case 11: // short / long / empty
+		v.Signature = garbageSig(r, []int{0, 1, 10, 64, 66}[r.Intn(5)])
+		signed, valid, routed = true, false, false
+	case 12: // address and index of another validator, signed by idx's key
+		if n > 1 {
+			j := (idx + 1) % n
+			v.ValidatorAddress = vset.Validators[j].Address
+			v.ValidatorIndex = uint32(j)
+			v.Signature = signVote(keyOf(idx), chain, v)
+			signed, valid, routed = true, false, false
+		}
+	}
+	if !signed {
+		v.Signature = signVote(keyOf(idx), chain, v)
+	}
+	return v, valid, routed, idx, mut
+}
+
+// allWireValid: every stored canonical vote has a zero or complete block id (what Vote.ValidateBasic
+// enforces on the wire; MakeCommit/CommitToVoteSet are only specified for such votes).
+func allWireValid(vs *types.VoteSet, n int) bool {
+	for i := 0; i < n; i++ {
+		if v := vs.GetByIndex(uint32(i)); v != nil && !v.BlockID.IsZero() && !v.BlockID.IsComplete() {
+			return false
+		}
+	}
+	return true
 }
 
 func b01(b bool) string {
@@ -592,7 +827,11 @@ func sigIDorZero(s []byte) int {
 }
 
 func commitIn(want types.BlockID, h uint64, c *types.Commit) string {
-	s := fmt.Sprintf("X %s %d %d %d %s %d", bidStr(want), h, c.Height, c.Round, bidStr(c.BlockID), len(c.Signatures))
+	return fmt.Sprintf("X %s %d %d %d %s %d", bidStr(want), h, c.Height, c.Round, bidStr(c.BlockID), len(c.Signatures)) + sigLines(c)
+}
+
+func sigLines(c *types.Commit) string {
+	s := ""
 	for _, cs := range c.Signatures {
 		st := ""
 		if len(cs.Signature) == 0 {
@@ -611,6 +850,11 @@ func doVerify(o *out.Out, r *gen.Rand, vset *types.ValidatorSet, chain string, w
 	obs := "x PANIC"
 	if !pan {
 		obs = "x " + commitErrClass(err)
+	} else if c.Height == 0 && hasUnknownFlag(c) {
+		// a commit of height 0 is not validated (Commit.ValidateBasic checks nothing below height 1), so a
+		// slot with an unknown BlockIDFlag reaches CommitSig.BlockID, which panics.  No caller verifies a
+		// commit for height 0; the model has this panic (verify_commit_x).
+		o.Count("op.verify.height0-unknown-flag-panic")
 	} else {
 		o.Fail(step, "verifycommit-panic", "VerifyCommit panicked")
 	}
@@ -653,7 +897,7 @@ func mutateCommit(r *gen.Rand, c *types.Commit, maj types.BlockID, height uint64
 	mc := c.Copy()
 	mc.Signatures = append([]types.CommitSig{}, c.Signatures...)
 	want, h := maj, height
-	switch r.Intn(13) {
+	switch r.Intn(16) {
 	case 0: // drop one signature (absent)
 		mc.Signatures[r.Intn(len(mc.Signatures))] = types.NewCommitSigAbsent()
 	case 1: // drop until below quorum: all absent except one
@@ -711,6 +955,48 @@ func mutateCommit(r *gen.Rand, c *types.Commit, maj types.BlockID, height uint64
 				mc.Signatures[i] = cs
 			}
 		}
+	case 13: // commit height 0: Commit.ValidateBasic checks nothing, the size and height checks come next
+		mc.Height = 0
+		switch r.Intn(3) {
+		case 0:
+			i := r.Intn(len(mc.Signatures))
+			cs := mc.Signatures[i]
+			cs.BlockIDFlag = types.BlockIDFlag([]int{0, 4, 255}[r.Intn(3)])
+			mc.Signatures[i] = cs
+		case 1:
+			mc.Signatures = append(mc.Signatures, types.NewCommitSigAbsent())
+		}
+	case 14: // commit height 0 verified for height 0: the signatures are for the real height
+		mc.Height = 0
+		h = 0
+		if r.Bool() {
+			i := r.Intn(len(mc.Signatures))
+			cs := mc.Signatures[i]
+			cs.BlockIDFlag = types.BlockIDFlag([]int{0, 4, 255}[r.Intn(3)])
+			mc.Signatures[i] = cs
+		}
+	case 15: // an absent slot that still carries an address, a time or a signature / a nil block id
+		if r.Chance(1, 3) {
+			mc.BlockID = types.BlockID{}
+			if r.Bool() {
+				mc.BlockID = pool[6] // zero hash, non-zero parts header: not the nil block
+			}
+			if r.Bool() {
+				want = mc.BlockID
+			}
+			break
+		}
+		i := r.Intn(len(mc.Signatures))
+		cs := types.NewCommitSigAbsent()
+		switch r.Intn(3) {
+		case 0:
+			cs.ValidatorAddress = vset.Validators[i].Address
+		case 1:
+			cs.Timestamp = time.Unix(1600000000, 0).UTC()
+		case 2:
+			cs.Signature = garbageSig(r, 65)
+		}
+		mc.Signatures[i] = cs
 	case 10: // a prevote-typed signature in place of a precommit, or nil-vote signature flagged as commit
 		i := r.Intn(len(mc.Signatures))
 		cs := mc.Signatures[i]
@@ -726,4 +1012,247 @@ func mutateCommit(r *gen.Rand, c *types.Commit, maj types.BlockID, height uint64
 		mc.Signatures[i] = cs
 	}
 	return mc, want, h
+}
+
+func hasUnknownFlag(c *types.Commit) bool {
+	for _, cs := range c.Signatures {
+		if cs.BlockIDFlag != types.BlockIDFlagAbsent && cs.BlockIDFlag != types.BlockIDFlagCommit && cs.BlockIDFlag != types.BlockIDFlagNil {
+			return true
+		}
+	}
+	return false
+}
+
+// doVerifyNil: VerifyCommit(nil commit) is an error, not a panic.
+func doVerifyNil(o *out.Out, vset *types.ValidatorSet, chain string, want types.BlockID, h uint64, step int) {
+	var err error
+	pan := catch(func() { err = vset.VerifyCommit(chain, want, h, nil) })
+	obs := "x PANIC"
+	if pan {
+		o.Fail(step, "verifycommit-panic", "VerifyCommit(nil) panicked")
+	} else {
+		obs = "x " + commitErrClass(err)
+		if err == nil {
+			o.Fail(step, "verifycommit-unsound", "VerifyCommit accepted a nil commit")
+		}
+	}
+	o.Count("op.verify.nil")
+	o.Op(fmt.Sprintf("XN %s %d", bidStr(want), h), obs)
+}
+
+// slotValidFor: does slot i of the commit carry a signature by validator i's key over exactly the
+// precommit (chain, c.Height, c.Round, id, slot time), id = the commit's block id for a for-block slot and
+// nil otherwise, and is that id the wanted one?  (lookup in the registry of signatures the harness made)
+func slotValidFor(vset *types.ValidatorSet, chain string, c *types.Commit, i int, want types.BlockID) bool {
+	cs := c.Signatures[i]
+	if cs.BlockIDFlag == types.BlockIDFlagAbsent || i >= vset.Size() {
+		return false
+	}
+	id := types.BlockID{}
+	if cs.BlockIDFlag == types.BlockIDFlagCommit {
+		id = c.BlockID
+	}
+	si := sigs[string(cs.Signature)]
+	return si != nil && !si.empty && si.signer == addrID[vset.Validators[i].Address] && si.chain == chainID(chain) &&
+		si.ty == int64(kproto.PrecommitType) && si.height == int64(c.Height) && si.round == int64(c.Round) &&
+		si.bid.Equal(id) && id.Equal(want) && si.tm == tmID(cs.Timestamp) && cs.ValidatorAddress.Equal(vset.Validators[i].Address)
+}
+
+// doToVoteSet: CommitToVoteSet(chain, c, vset); genuine = c is the MakeCommit output of a vote set with a
+// complete majority id and wire-valid votes: then it must not panic, report the same majority and
+// MakeCommit of the result must give c back (inverse).  Whatever c: a majority reported by the rebuilt vote
+// set must be backed by +2/3 valid slots for that exact id.
+func doToVoteSet(o *out.Out, vset *types.ValidatorSet, chain string, c *types.Commit, step int, genuine bool) {
+	n := vset.Size()
+	var vs2 *types.VoteSet
+	pan := catch(func() { vs2 = types.CommitToVoteSet(chain, c, vset) })
+	in := fmt.Sprintf("TC %d %d %s %d", c.Height, c.Round, bidStr(c.BlockID), len(c.Signatures)) + sigLines(c)
+	obs := "t PANIC"
+	var c2 *types.Commit
+	if !pan && vs2 != nil {
+		obs = "t " + vsObs(vs2, n)
+		if !catch(func() { c2 = vs2.MakeCommit() }) && c2 != nil {
+			obs += " | " + commitObs(c2)
+		} else {
+			c2 = nil
+			obs += " | -"
+		}
+	}
+	o.Count("op.tovoteset." + obs[2:3])
+	o.Op(in, obs)
+	if genuine {
+		if pan || vs2 == nil {
+			o.Fail(step, "commit-to-voteset-panic", "CommitToVoteSet panicked on the output of MakeCommit")
+		} else if m, ok := vs2.TwoThirdsMajority(); !ok || !m.Equal(c.BlockID) {
+			o.Fail(step, "commit-to-voteset-not-inverse", "the vote set rebuilt from MakeCommit's output reports no or another majority")
+		} else if c2 == nil || commitObs(c2) != commitObs(c) {
+			o.Fail(step, "commit-to-voteset-not-inverse", "MakeCommit(CommitToVoteSet(c)) differs from c")
+		}
+	}
+	if !pan && vs2 != nil {
+		if m, ok := vs2.TwoThirdsMajority(); ok {
+			sum, total := new(big.Int), new(big.Int)
+			for i, val := range vset.Validators {
+				total.Add(total, big.NewInt(val.VotingPower))
+				if i < len(c.Signatures) && slotValidFor(vset, chain, c, i, m) {
+					sum.Add(sum, big.NewInt(val.VotingPower))
+				}
+			}
+			if new(big.Int).Mul(sum, big.NewInt(3)).Cmp(new(big.Int).Mul(total, big.NewInt(2))) <= 0 {
+				o.Fail(step, "commit-to-voteset-unsound", fmt.Sprintf("the vote set rebuilt from a commit reports %s but the valid slots for it hold %s of %s", bidObs(m), sum, total))
+			}
+		}
+	}
+}
+
+// directCommit: a commit assembled slot by slot from freshly made signatures: signer subsets AT the
+// two-thirds boundary (exactly 2T/3 where a subset hits it, the largest below, the smallest above), everyone,
+// a random subset, nil-flagged slots with valid nil precommits, a commit of height 0.
+func directCommit(o *out.Out, r *gen.Rand, vset *types.ValidatorSet, keyOf func(int) int, chain string, height uint64, round uint32, total *big.Int) (*types.Commit, types.BlockID, uint64) {
+	n := vset.Size()
+	b := pool[1+r.Intn(2)]
+	ch, h := height, height
+	rd := round + uint32(r.Intn(2))
+	mode := r.Pick(6, 1, 2, 3, 2)
+	in := make([]bool, n)
+	three, two := big.NewInt(3), big.NewInt(2)
+	cmp23 := func(sum *big.Int) int { return new(big.Int).Mul(sum, three).Cmp(new(big.Int).Mul(total, two)) }
+	boundary := func() string {
+		variant := r.Intn(3) // 0: exactly 2/3 if some subset hits it, else largest below; 1: largest below or equal; 2: smallest above
+		if n <= 7 {
+			best, bestSum := -1, new(big.Int)
+			for m := 0; m < 1<<uint(n); m++ {
+				sum := new(big.Int)
+				for i := 0; i < n; i++ {
+					if m>>uint(i)&1 == 1 {
+						sum.Add(sum, big.NewInt(vset.Validators[i].VotingPower))
+					}
+				}
+				c := cmp23(sum)
+				ok := (variant == 2 && c > 0) || (variant != 2 && c <= 0)
+				if !ok {
+					continue
+				}
+				better := best < 0 || (variant == 2 && sum.Cmp(bestSum) < 0) || (variant != 2 && sum.Cmp(bestSum) > 0) ||
+					(sum.Cmp(bestSum) == 0 && r.Bool())
+				if better {
+					best, bestSum = m, sum
+				}
+			}
+			if best < 0 {
+				best = 0
+			}
+			for i := 0; i < n; i++ {
+				in[i] = best>>uint(i)&1 == 1
+			}
+			switch cmp23(bestSum) {
+			case 0:
+				return "exact"
+			case 1:
+				return "above"
+			}
+			return "below"
+		}
+		sum := new(big.Int)
+		last := -1
+		for _, i := range r.Perm(n) {
+			in[i] = true
+			last = i
+			sum.Add(sum, big.NewInt(vset.Validators[i].VotingPower))
+			if cmp23(sum) > 0 {
+				break
+			}
+		}
+		if variant != 2 && last >= 0 {
+			in[last] = false
+			sum.Sub(sum, big.NewInt(vset.Validators[last].VotingPower))
+			if cmp23(sum) == 0 {
+				return "exact"
+			}
+			return "below"
+		}
+		return "above"
+	}
+	nilRest := false
+	switch mode {
+	case 0:
+		o.Count("direct.boundary." + boundary())
+	case 1:
+		for i := range in {
+			in[i] = true
+		}
+		o.Count("direct.everyone")
+	case 2:
+		for i := range in {
+			in[i] = r.Bool()
+		}
+		o.Count("direct.random")
+	case 3: // boundary subset for the block, everybody else signs nil (valid signatures that must not count)
+		o.Count("direct.nilrest." + boundary())
+		nilRest = true
+	case 4: // height 0: nothing is validated before the size/height/id checks
+		ch, h = 0, 0
+		for i := range in {
+			in[i] = r.Chance(3, 4)
+		}
+		o.Count("direct.height0")
+	}
+	sigsl := make([]types.CommitSig, n)
+	for i := 0; i < n; i++ {
+		addr := vset.Validators[i].Address
+		ts := voteTimes[r.Pick(3, 1)]
+		switch {
+		case in[i]:
+			v := &types.Vote{Type: kproto.PrecommitType, Height: ch, Round: rd, BlockID: b, Timestamp: ts, ValidatorAddress: addr, ValidatorIndex: uint32(i)}
+			sigsl[i] = types.CommitSig{BlockIDFlag: types.BlockIDFlagCommit, ValidatorAddress: addr, Timestamp: ts, Signature: signVote(keyOf(i), chain, v)}
+		case nilRest:
+			v := &types.Vote{Type: kproto.PrecommitType, Height: ch, Round: rd, BlockID: types.BlockID{}, Timestamp: ts, ValidatorAddress: addr, ValidatorIndex: uint32(i)}
+			sigsl[i] = types.CommitSig{BlockIDFlag: types.BlockIDFlagNil, ValidatorAddress: addr, Timestamp: ts, Signature: signVote(keyOf(i), chain, v)}
+		default:
+			sigsl[i] = types.NewCommitSigAbsent()
+		}
+	}
+	if mode == 4 && r.Bool() {
+		i := r.Intn(n)
+		sigsl[i].BlockIDFlag = types.BlockIDFlag([]int{0, 4, 255}[r.Intn(3)])
+	}
+	return types.NewCommit(ch, rd, b, sigsl), b, h
+}
+
+// statelessVoteOps: Vote.ValidateBasic and Vote.Verify called directly on a generated vote.
+func statelessVoteOps(o *out.Out, r *gen.Rand, vset *types.ValidatorSet, chain string, v *types.Vote, step int) {
+	w := *v
+	if r.Chance(1, 4) {
+		w.Type = kproto.SignedMsgType([]int32{0, 3, 32}[r.Intn(3)])
+	}
+	var err error
+	if catch(func() { err = w.ValidateBasic() }) {
+		o.Op("VB "+voteTokens(&w), "vb PANIC")
+		o.Fail(step, "vote-validatebasic-panic", "Vote.ValidateBasic panicked")
+	} else {
+		o.Count("op.validatebasic." + b01(err == nil))
+		o.Op("VB "+voteTokens(&w), "vb "+b01(err == nil))
+		wire := w.BlockID.IsZero() || w.BlockID.IsComplete()
+		if err == nil && (!wire || len(w.Signature) == 0 || !types.IsVoteTypeValid(w.Type)) {
+			o.Fail(step, "vote-validatebasic-unsound", "ValidateBasic accepted a vote with an invalid type, a half-set block id or no signature")
+		}
+	}
+	addr := v.ValidatorAddress
+	if r.Bool() {
+		addr = vset.Validators[r.Intn(vset.Size())].Address
+	}
+	if catch(func() { err = v.Verify(chain, addr) }) {
+		o.Op(fmt.Sprintf("VV %d %s", addrID[addr], voteTokens(v)), "vv PANIC")
+		o.Fail(step, "vote-verify-panic", "Vote.Verify panicked")
+		return
+	}
+	ec := errClass(err)
+	o.Count("op.voteverify." + ec)
+	o.Op(fmt.Sprintf("VV %d %s", addrID[addr], voteTokens(v)), "vv "+ec)
+	si := sigs[string(v.Signature)]
+	good := si != nil && !si.empty && si.signer != 0 && si.signer == addrID[addr] && si.chain == chainID(chain) && si.ty == int64(v.Type) &&
+		si.height == int64(v.Height) && si.round == int64(v.Round) && si.bid.Equal(v.BlockID) && si.tm == tmID(v.Timestamp)
+	if (err == nil) != (good && v.ValidatorAddress.Equal(addr)) {
+		o.Fail(step, "vote-verify-unsound", fmt.Sprintf("Vote.Verify for address #%d answered %s but the vote names address #%d and carries a valid signature of #%d over its content: %v", addrID[addr], ec, addrID[v.ValidatorAddress], addrID[addr], good))
+	}
 }
